@@ -36,6 +36,36 @@ theorem sb_div_qr_floor (n d : List Nat) (dinv : Nat) (hdn : 3 ≤ d.length) (hn
   have := divmod_of_eq (val n) (val d) _ _ h hr
   exact ⟨this.1.symm, this.2.symm⟩
 
+/-- the limb-level model returns exactly the value-level contract `DivZ.mpnDivQr 3 0` (⌊n/d⌋ split into nn-dn limbs
+    and qh, n mod d on dn limbs) that the driver's handler compares it with: the handler's `!modelspec` marker is
+    unreachable on the domain of the function -/
+theorem sb_div_qr_contract (n d : List Nat) (dinv : Nat) (hdn : 3 ≤ d.length) (hnn : d.length ≤ n.length)
+    (hnorm : B / 2 ≤ d.getD (d.length - 1) 0) (hn : Limbs n) (hd : Limbs d)
+    (hdinv : dinv = invert_pi1 (d.getD (d.length - 1) 0) (d.getD (d.length - 2) 0)) :
+    DivZ.mpnDivQr 3 0 n d = some (sb_div_qr n d dinv) := by
+  obtain ⟨q, r, qh, e, h, hr, _, hq, hql, hrl, hrn⟩ := sb_div_qr_correct n d dinv hdn hnn hnorm hn hd hdinv
+  have hnd : DivZ.normalised d = true := by
+    obtain ⟨k, hk⟩ : ∃ k, d.length = k + 2 := ⟨d.length - 2, by omega⟩
+    have hsplit := split_top2 d k hk
+    rw [hk, show k + 2 - 1 = k + 1 from rfl] at hnorm
+    rw [hsplit]; exact normalised_of_top _ _ _ hnorm
+  obtain ⟨hQ, hR⟩ := divmod_of_eq (val n) (val d) _ _ h hr
+  have hqlt := val_lt q hq
+  rw [hql] at hqlt
+  have hP : 0 < B ^ (n.length - d.length) := by have := B_pos; positivity
+  unfold DivZ.mpnDivQr
+  rw [if_neg (by simp [hnd]; omega), e]
+  simp only []
+  rw [hQ, hR]
+  have e1 : toLimbs (n.length - d.length) (qh * B ^ (n.length - d.length) + val q) = q := by
+    rw [← hql, Nat.add_comm, Nat.mul_comm]; exact toLimbs_val_add q qh hq
+  have e2 : toLimbs d.length (val r) = r := by
+    have := toLimbs_val_add r 0 hrl
+    rw [Nat.mul_zero, Nat.add_zero, hrn] at this; exact this
+  have e3 : (qh * B ^ (n.length - d.length) + val q) / B ^ (n.length - d.length) = qh := by
+    rw [Nat.add_comm, Nat.add_mul_div_right _ _ hP, Nat.div_eq_of_lt hqlt, Nat.zero_add]
+  rw [e1, e2, e3]
+
 /-! Non-vacuity (values cross-checked with the real function by the directed ops of tools/props/c02_sb.py). -/
 
 -- ordinary step, no correction: the 3/2 estimate is the quotient limb
